@@ -394,6 +394,8 @@ class StoreBasedCollection:
             # TODO: Properly allow removing subcollections
             # self.get_subcollection(name).destroy()
             shutil.rmtree(os.path.join(self.store.path, name))
+            # The directory may have held stores that are still cached.
+            open_store_from_path.cache_clear()
 
     async def create_member(
         self, name: str, contents: Iterable[bytes], content_type: str
@@ -478,6 +480,7 @@ class StoreBasedCollection:
     def destroy(self) -> None:
         # RFC2518, section 8.6.2 says this should recursively delete.
         self.store.destroy()
+        open_store_from_path.cache_clear()
 
     async def get_body(self):
         raise NotImplementedError(self.get_body)
@@ -754,6 +757,7 @@ class CollectionSetResource(webdav.Collection):
         p = self.backend._map_to_file_path(self.relpath)
         # RFC2518, section 8.6.2 says this should recursively delete.
         shutil.rmtree(p)
+        open_store_from_path.cache_clear()
 
     async def render(
         self, self_url, accepted_content_types, accepted_content_languages
